@@ -97,15 +97,13 @@ def run(rep):
         jn = cfg.nodes_of(stmt_of(st, j))
         lim_f = []
         abs_f, par_f = [], []
-        for nd in cfg.nodes:
-            if nd.kind != 'branch':
-                continue
-            if norm(nd.test) == 'limit_root' and nd.pol is False:
-                lim_f.append(nd.id)
-            if _is_abs_test(nd.test, X) and nd.pol is False:
-                abs_f.append(nd.id)
-            if _is_pardir_test(nd.test, X) and nd.pol is False:
-                par_f.append(nd.id)
+        for nid, t_, p_ in cfg.branches():
+            if norm(t_) == 'limit_root' and p_ is False:
+                lim_f.append(nid)
+            if _is_abs_test(t_, X) and p_ is False:
+                abs_f.append(nid)
+            if _is_pardir_test(t_, X) and p_ is False:
+                par_f.append(nid)
         for label, nodes in (('absolute-path refusal', abs_f), ('parent-directory refusal', par_f)):
             ok = bool(nodes) and cfg.must_pass(set(nodes) | set(lim_f), cfg.entry, jn)
             rep.check('R14.a', key + '::' + label, ok,
@@ -259,9 +257,7 @@ def run(rep):
                   '%s is assigned from the right source on every success path' % attr if ok else
                   'success path does not always assign %s.%s from the expected source' % (resp_var, attr), st, sts[0] if sts else bfr.node)
     # isfile check precedes open
-    isf_f = [n.id for n in cfg_b.nodes if n.kind == 'branch' and n.pol is False and isinstance(n.test, ast.UnaryOp)
-             and isinstance(n.test.operand, ast.Call) and call_tail(n.test.operand) == 'isfile'] + \
-            [n.id for n in cfg_b.nodes if n.kind == 'branch' and n.pol is True and isinstance(n.test, ast.Call) and call_tail(n.test) == 'isfile']
+    isf_f = [nid for nid, t_, p_ in cfg_b.branches() if isinstance(t_, ast.Call) and call_tail(t_) == 'isfile' and p_ is True]
     ok = bool(isf_f) and cfg_b.must_pass(isf_f, cfg_b.entry, cfg_b.nodes_of_all(opens))
     rep.check('R14.d', fkey(bfr, 'isfile before open'), ok, 'only regular files are opened (isfile test dominates open)' if ok else
               'open() is reachable without the isfile test (directories / special files)', st, bfr.node)
